@@ -823,6 +823,13 @@ def check_C02(ctx):
     summ = harness(ctx, ["samplecodec", "replay"], cases_file=scases, name="samplecodec", timeout=3600)
     report_mismatches(ctx, summ, "the encoder's hit-sound byte / bank info differ from SampleCodec, or sample names and banks do not survive")
     os.remove(scases)
+    # (2b) whole hit-object lines: HitObjectLine!LineCodec (type byte, hit-sound byte, ends, span count, node lists) on the
+    #      line alphabets, and the encoder's text compared field by field with HitObjectLine!EncOf
+    for (a, n, ml) in [("combo", 0, 3 if thorough else 2), ("typesquick", 0, 1), ("nodes", 0, 1), ("nodes2", 0, 2), ("bank", 0, 1)]:
+        f = hitobj_cases(ctx, a, n, ml, invariants=("LineCodec",))
+        summ = harness(ctx, ["hitobj", "codec"], cases_file=f, name="hitobj-codec-" + a, timeout=3600)
+        report_mismatches(ctx, summ, "the encoder's hit-object line differs from HitObjectLine!EncOf (alphabet %s)" % a)
+        os.remove(f)
     # (3) timing points: encoder transcription composed with the decoder
     plan = [("AlphaVel", "GensModes", 3), ("AlphaAll", "GensTwo", 2)] if thorough else [("AlphaVel", "GensModes", 2), ("AlphaEff", "GensTwo", 2)]
     for (a, g, n) in plan:
